@@ -30,13 +30,13 @@ var Cfgs = []Cfg{{}, {ProtoTime: true}, {ProtoArrays: true}, {ProtoTime: true, P
 type Class int
 
 const (
-	CV  Class = iota // varint, wire type 0
-	CF8              // fixed 64, wire type 1
-	CL               // length-delimited, wire type 2
-	CS               // counted list, wire type 3
-	CF4              // fixed 32, wire type 5
-	CR               // protobuf repeated form: one wire-type-2 field per element/entry
-	CBad             // not encodable (model rejects the definition)
+	CV   Class = iota // varint, wire type 0
+	CF8               // fixed 64, wire type 1
+	CL                // length-delimited, wire type 2
+	CS                // counted list, wire type 3
+	CF4               // fixed 32, wire type 5
+	CR                // protobuf repeated form: one wire-type-2 field per element/entry
+	CBad              // not encodable (model rejects the definition)
 )
 
 func (c Class) WireType() int {
